@@ -120,14 +120,17 @@ Definition remove_child (name : list Z) (d : dir) : dir * bool :=
           dmode := dmode d1; dtime := dtime d1; ndata := ndata d1 |}, true)
   end.
 
-(** AddChild (maxLinks = 0: no limit) *)
-Definition add_child (e : entry) (d : dir) : dir :=
+(** AddChild (maxLinks = 0: no limit).  The old entry is removed first; then
+    ProtoNode.AddRawLink refuses a link size above MaxInt64 (checkLink) and the
+    call fails with the old entry gone. *)
+Definition add_child (e : entry) (d : dir) : dir * bool :=
   let d1 := fst (remove_child (e_name e) d) in
+  if two63 <=? e_tsize e then (d1, false) else
   let d2 := fix_negative
               {| links := links d1 ++ [e]; est := est d1 + link_size e; total := total d1;
                  dmode := dmode d1; dtime := dtime d1; ndata := ndata d1 |} in
-  {| links := links d2; est := est d2; total := total d2 + 1; dmode := dmode d2; dtime := dtime d2;
-     ndata := ndata d2 |}.
+  ({| links := links d2; est := est d2; total := total d2 + 1; dmode := dmode d2; dtime := dtime d2;
+      ndata := ndata d2 |}, true).
 
 (** the block GetNode().RawData() returns *)
 Definition node_bytes (d : dir) : list Z := encode_node (sort_links (links d)) (Some (ndata d)).
@@ -176,7 +179,7 @@ Inductive op :=
 (** one step: new directory and what the call reports (true = nil error) *)
 Definition step (fl : bool) (d : dir) (o : op) : option (dir * bool) :=
   match o with
-  | OAdd e => Some (add_child e d, true)
+  | OAdd e => Some (add_child e d)
   | ORemove n => Some (remove_child n d)
   | OReload => match reload fl d with Some d' => Some (d', true) | None => None end
   end.
